@@ -16,6 +16,12 @@ impl Odd { pub const fn default() -> Odd { Odd(100) } }      // inherent preset,
 """
 
 
+PARSE_ONLY = """pub fn po_seven() -> u8 { 7 }
+pub fn po_word() -> u16 { 0x1234 }
+pub fn po_name() -> String { String::from("anonymous") }
+"""
+
+
 def U(ident, **kw):
     return Variant(ident=ident, **kw)
 
@@ -32,6 +38,11 @@ def pivot():
                       note="two adjacent disabled"))
     S.append(EnumSpec("OddPayload", [U("A", fields=[Field("Odd")]), U("B", fields=[Field("Odd", name="g"), Field("u8", name="x")], named=True), U("C")],
                       note="payload type that has BOTH a Default impl and an inherent `fn default()` returning another value"))
+    S.append(EnumSpec("ParseOnly", [U("Vol", fields=[Field("u8")], default_with="po_seven"),
+                                    U("Login", fields=[Field("String", name="user", default_with="po_name"), Field("u16", name="port", default_with="po_word"), Field("bool", name="tls")], named=True),
+                                    U("Named", serialize=["n", "nm"], to_string="named", aci=True, fields=[Field("u16")]),
+                                    U("Rest", default=True, fields=[Field("String")]), U("H", disabled=True, fields=[Field("u8")], default_with="po_seven"), U("Last")],
+                      note="attributes that only concern parsing / printing (default_with on a tuple variant and on named fields, default, serialize, to_string, ascii_case_insensitive): iterated payloads stay Default::default()"))
     S.append(EnumSpec("DisAll", [U("H1", disabled=True), U("H2", disabled=True)], note="all disabled"))
     S.append(EnumSpec("Zero", [], note="no variants"))
     S.append(EnumSpec("Gen", [U("One", fields=[Field("T")]), U("H", disabled=True), U("Two", fields=[Field("T", name="t"), Field("u8", name="u")], named=True), U("Three")],
@@ -80,7 +91,7 @@ def program(spec: EnumSpec, pname, tier):
     E = spec.ty()
     en = [i for i, v in enumerate(spec.variants) if not v.disabled]
     C = len(en)
-    src = (ODD if spec.name == "OddPayload" else "") + render_enum(spec) + "\n"
+    src = (ODD if spec.name == "OddPayload" else "") + (PARSE_ONLY if spec.name == "ParseOnly" else "") + render_enum(spec) + "\n"
     helper = variant_index_fn(spec) + "\n" + payload_ok_fn(spec) + "\n"
     helper += "pub const C: usize = %d;\n" % C
     helper += "pub fn decl_of_enabled(j: usize) -> usize { match j { %s _ => usize::MAX } }\n" % " ".join("%d => %d," % (j, i) for j, i in enumerate(en))
